@@ -11,6 +11,7 @@ import WowSrp.Model.Pin
 import WowSrp.Model.Integrity
 import WowSrp.Model.MatrixCard
 import WowSrp.Model.Rng
+import WowSrp.Model.Session
 open WowSrp
 
 def C : Crypto := Crypto.real
@@ -119,13 +120,10 @@ def fullLogin (be : Backend) (u p : String) : M (SrpServer × SrpClient) := do
 
 /-! ### header sessions -/
 
-inductive HObj where
-  | comb (e : Exp) (hc : HeaderCrypto)
-  | halves (e : Exp) (enc dec : Half)
-  | wcli (c : WClientCrypto)
-  | wsrv (c : WServerCrypto)
-  | wcliH (enc : Rc4) (dec : WClientDec)      -- split Wrath client halves
-  | wsrvH (enc : WServerEnc) (dec : Rc4)      -- split Wrath server halves
+/- The object forms (`HObj`), the typed op vocabulary (`HOp`), the typed answers (`HOut`) and the dispatch of one op to the model
+   functions (`HObj.step`) live in `WowSrp/Model/Session.lean`; `Props/Session.lean` proves that ANY op sequence run through `HObj.step`
+   refines the two-stream specification of `Spec/Session.lean`.  The driver only parses tokens and prints answers, so the thing the
+   differential test runs against the real crate is the thing the theorem is about. -/
 
 def parseREv (s : String) : List REv :=
   if s = "-" then [] else
@@ -145,173 +143,51 @@ def parseWEv (s : String) : List WEv :=
     | 'E' :: r => .err (String.ofList r).toNat!
     | _ => .accept 0
 
-def dataBytes (l : List REv) : Nat := (l.map fun | .data bs => bs.length | _ => 0).sum
-
-def rdResult {σ} [DecidableEq σ] (old : σ) (script : List REv) (r : IoRes σ (Nat × Nat) (List REv)) : String :=
-  let used := dataBytes script - dataBytes r.rest
-  let same := if r.state = old then "1" else "0"
-  match r.result with
-  | .ok (s, o) => s!"ok:{s}:{o}:u{used}"
-  | .error k => s!"err:{k}:u{used}:same{same}"
-
-def wrResult {σ} (r : IoRes σ Unit Bytes) : String :=
-  match r.result with
-  | .ok _ => s!"ok:{hex r.rest}"
-  | .error k => s!"err:{k}:{hex r.rest}"
-
 def zeros16 : Bytes := List.replicate 16 0
 
-/-- encrypter / decrypter views of an object, so that the op table is written once -/
-def HObj.enc (o : HObj) (data : Bytes) : M (HObj × Bytes) :=
-  match o with
-  | .comb e hc => do let (hc', out) ← liftOut (hc.encryptData e data); pure (.comb e hc', out)
-  | .halves e en de => do let (en', out) ← liftOut (en.encrypt e data); pure (.halves e en' de, out)
-  | .wcli c => do let (c', out) ← liftOut (c.encryptData data); pure (.wcli c', out)
-  | .wsrv c => do let (c', out) ← liftOut (c.encryptData data); pure (.wsrv c', out)
-  | .wcliH en de => do let (r, out) ← liftOut (en.apply data); pure (.wcliH r de, out)
-  | .wsrvH en de => do let (r, out) ← liftOut (en.encrypt data); pure (.wsrvH r de, out)
+/-- token -> typed op (`none`: not part of the session vocabulary) -/
+def parseOp (tok : String) : Option HOp :=
+  match tok.splitOn ":" with
+  | ["e", d] | ["ae", d] => some (.enc (unhex d))
+  | ["d", d] | ["ad", d] => some (.dec (unhex d))
+  | ["es", s, op] => some (.encServer (nat! s) (nat! op))
+  | ["ec", s, op] => some (.encClient (nat! s) (nat! op))
+  | ["ds", d] => some (.decServer (unhex d))
+  | ["dc", d] => some (.decClient (unhex d))
+  | ["rs", sc] => some (.readServer (parseREv sc))
+  | ["rc", sc] => some (.readClient (parseREv sc))
+  | ["ws", s, op, sc] => some (.writeServer (nat! s) (nat! op) (parseWEv sc))
+  | ["wc", s, op, sc] => some (.writeClient (nat! s) (nat! op) (parseWEv sc))
+  | ["at", d] => some (.attempt (unhex d))
+  | ["lg", d] => some (.large ((unhex d).headD 0))
+  | ["split"] => some .split
+  | ["unsplit"] => some .unsplit
+  | ["clone"] => some .clone
+  | _ => none
 
-def HObj.dec (o : HObj) (data : Bytes) : M (HObj × Bytes) :=
-  match o with
-  | .comb e hc => do let (hc', out) ← liftOut (hc.decryptData e data); pure (.comb e hc', out)
-  | .halves e en de => do let (de', out) ← liftOut (de.decrypt e data); pure (.halves e en de', out)
-  | .wcli c => do let (c', out) ← liftOut (c.decryptData data); pure (.wcli c', out)
-  | .wsrv c => do let (c', out) ← liftOut (c.decryptData data); pure (.wsrv c', out)
-  | .wcliH en de => do let (r, out) ← liftOut (de.decrypt data); pure (.wcliH en r, out)
-  | .wsrvH en de => do let (r, out) ← liftOut (de.apply data); pure (.wsrvH en r, out)
+/-- typed answer -> the text the harness prints for the same call -/
+def outStr (op : HOp) : HOut → String
+  | .bytes b => hex b
+  | .header s o => match op with
+    | .attempt _ => s!"h:{s}:{o}"
+    | _ => s!"{s}:{o}"
+  | .readOk s o u => s!"ok:{s}:{o}:u{u}"
+  | .readErr k u same => s!"err:{k}:u{u}:same{if same then "1" else "0"}"
+  | .writeOk sink => s!"ok:{hex sink}"
+  | .writeErr k sink => s!"err:{k}:{hex sink}"
+  | .more => "more"
+  | .done => "ok"
+  | .refused => "err"
+  | .na => "na"
 
 def hdrOp (o : HObj) (tok : String) : M (HObj × String) := do
-  let parts := tok.splitOn ":"
-  match parts with
-  | ["e", d] | ["ae", d] => do let (o', out) ← o.enc (unhex d); pure (o', hex out)
-  | ["d", d] | ["ad", d] => do let (o', out) ← o.dec (unhex d); pure (o', hex out)
-  | ["es", s, op] =>
-    match o with
-    | .comb e hc => do let (hc', out) ← liftOut (hc.encryptServerHeader e (nat! s) (nat! op)); pure (.comb e hc', hex out)
-    | .halves e en de => do let (en', out) ← liftOut (en.encryptServerHeader e (nat! s) (nat! op)); pure (.halves e en' de, hex out)
-    | .wsrv c => do let (c', out) ← liftOut (c.encryptServerHeader (nat! s) (nat! op)); pure (.wsrv c', hex out)
-    | .wsrvH en de => do let (en', out) ← liftOut (en.encryptServerHeader (nat! s) (nat! op)); pure (.wsrvH en' de, hex out)
-    | _ => pure (o, "na")
-  | ["ec", s, op] =>
-    match o with
-    | .comb e hc => do let (hc', out) ← liftOut (hc.encryptClientHeader e (nat! s) (nat! op)); pure (.comb e hc', hex out)
-    | .halves e en de => do let (en', out) ← liftOut (en.encryptClientHeader e (nat! s) (nat! op)); pure (.halves e en' de, hex out)
-    | .wcli c => do let (c', out) ← liftOut (c.encryptClientHeader (nat! s) (nat! op)); pure (.wcli c', hex out)
-    | .wcliH en de => do let (r, out) ← liftOut (wClientEncryptHeader en (nat! s) (nat! op)); pure (.wcliH r de, hex out)
-    | _ => pure (o, "na")
-  | ["ds", d] =>
-    match o with
-    | .comb e hc => do let (hc', (s, op)) ← liftOut (hc.decryptServerHeader e (unhex d)); pure (.comb e hc', s!"{s}:{op}")
-    | .halves e en de => do let (de', (s, op)) ← liftOut (de.decryptServerHeader e (unhex d)); pure (.halves e en de', s!"{s}:{op}")
-    | _ => pure (o, "na")
-  | ["dc", d] =>
-    match o with
-    | .comb e hc => do let (hc', (s, op)) ← liftOut (hc.decryptClientHeader e (unhex d)); pure (.comb e hc', s!"{s}:{op}")
-    | .halves e en de => do let (de', (s, op)) ← liftOut (de.decryptClientHeader e (unhex d)); pure (.halves e en de', s!"{s}:{op}")
-    | .wsrv c => do let (c', (s, op)) ← liftOut (c.decryptClientHeader (unhex d)); pure (.wsrv c', s!"{s}:{op}")
-    | .wsrvH en de => do let (r, (s, op)) ← liftOut (wServerDecryptHeader de (unhex d)); pure (.wsrvH en r, s!"{s}:{op}")
-    | _ => pure (o, "na")
-  | ["rs", sc] =>
-    let script := parseREv sc
-    match o with
-    | .comb e hc => do
-      let r ← liftOut (hc.decrypt.readServerHeader e script)
-      pure (.comb e { hc with decrypt := r.state }, rdResult hc.decrypt script r)
-    | .halves e en de => do
-      let r ← liftOut (de.readServerHeader e script)
-      pure (.halves e en r.state, rdResult de script r)
-    | .wcli c => do
-      let r ← liftOut (c.readServerHeader script)
-      pure (.wcli r.state, rdResult c script r)
-    | .wcliH en de => do
-      let r ← liftOut (de.readServerHeader script)
-      pure (.wcliH en r.state, rdResult de script r)
-    | _ => pure (o, "na")
-  | ["rc", sc] =>
-    let script := parseREv sc
-    match o with
-    | .comb e hc => do
-      let r ← liftOut (hc.decrypt.readClientHeader e script)
-      pure (.comb e { hc with decrypt := r.state }, rdResult hc.decrypt script r)
-    | .halves e en de => do
-      let r ← liftOut (de.readClientHeader e script)
-      pure (.halves e en r.state, rdResult de script r)
-    | .wsrv c => do
-      let r ← liftOut (c.readClientHeader script)
-      pure (.wsrv r.state, rdResult c script r)
-    | .wsrvH en de => do
-      let r ← liftOut (wServerReadHeader de script)
-      pure (.wsrvH en r.state, rdResult de script r)
-    | _ => pure (o, "na")
-  | ["ws", s, op, sc] =>
-    let script := parseWEv sc
-    match o with
-    | .comb e hc => do
-      let r ← liftOut (hc.encrypt.writeServerHeader e (nat! s) (nat! op) script)
-      pure (.comb e { hc with encrypt := r.state }, wrResult r)
-    | .halves e en de => do
-      let r ← liftOut (en.writeServerHeader e (nat! s) (nat! op) script)
-      pure (.halves e r.state de, wrResult r)
-    | .wsrv c => do
-      let r ← liftOut (c.writeServerHeader (nat! s) (nat! op) script)
-      pure (.wsrv r.state, wrResult r)
-    | .wsrvH en de => do
-      let r ← liftOut (en.writeServerHeader (nat! s) (nat! op) script)
-      pure (.wsrvH r.state de, wrResult r)
-    | _ => pure (o, "na")
-  | ["wc", s, op, sc] =>
-    let script := parseWEv sc
-    match o with
-    | .comb e hc => do
-      let r ← liftOut (hc.encrypt.writeClientHeader e (nat! s) (nat! op) script)
-      pure (.comb e { hc with encrypt := r.state }, wrResult r)
-    | .halves e en de => do
-      let r ← liftOut (en.writeClientHeader e (nat! s) (nat! op) script)
-      pure (.halves e r.state de, wrResult r)
-    | .wcli c => do
-      let r ← liftOut (c.writeClientHeader (nat! s) (nat! op) script)
-      pure (.wcli r.state, wrResult r)
-    | .wcliH en de => do
-      let r ← liftOut (wClientWriteHeader en (nat! s) (nat! op) script)
-      pure (.wcliH r.state de, wrResult r)
-    | _ => pure (o, "na")
-  | ["at", d] =>
-    match o with
-    | .wcli c => do
-      let (c', a) ← liftOut (c.attempt (unhex d))
-      let s := match a with
-        | .header s op => s!"h:{s}:{op}"
-        | .additionalByteRequired => "more"
-      pure (.wcli c', s)
-    | .wcliH en de => do
-      let (de', a) ← liftOut (de.attempt (unhex d))
-      let s := match a with
-        | .header s op => s!"h:{s}:{op}"
-        | .additionalByteRequired => "more"
-      pure (.wcliH en de', s)
-    | _ => pure (o, "na")
-  | ["lg", d] =>
-    match o with
-    | .wcli c => do
-      let (c', (s, op)) ← liftOut (c.decryptLarge ((unhex d).headD 0))
-      pure (.wcli c', s!"{s}:{op}")
-    | .wcliH en de => do
-      let (de', (s, op)) ← liftOut (de.decryptLarge ((unhex d).headD 0))
-      pure (.wcliH en de', s!"{s}:{op}")
-    | _ => pure (o, "na")
-  | ["split"] =>
-    match o with
-    | .comb e hc => let (en, de) := hc.split; pure (.halves e en de, "ok")
-    | .wcli c => let (en, de) := c.split; pure (.wcliH en de, "ok")
-    | .wsrv c => let (en, de) := c.split; pure (.wsrvH en de, "ok")
-    | _ => pure (o, "ok")
-  | ["unsplit"] =>
-    match o with
-    | .halves .vanilla en de =>
-      match en.unsplit de with
-      | some hc => pure (.comb .vanilla hc, "ok")
-      | none => pure (o, "err")
-    | _ => pure (o, "na")
+  match parseOp tok with
+  | some op => do
+    let (o', out) ← liftOut (o.step op)
+    pure (o', outStr op out)
+  | none =>
+  -- two probes that are not session ops: they build a second object / look at the state and throw the copies away
+  match tok.splitOn ":" with
   | ["pairwith", k] =>
     match o with
     | .comb .vanilla hc =>
@@ -327,10 +203,9 @@ def hdrOp (o : HObj) (tok : String) : M (HObj × String) := do
       let u := match en.unsplit other.decrypt with | some _ => "ok" | none => "err"
       pure (o, s!"{a}:{b}:{u}")
     | _ => pure (o, "na")
-  | ["clone"] => pure (o, "ok")
   | ["pr"] => do
-    let (_, e) ← o.enc zeros16
-    let (_, d) ← o.dec zeros16
+    let (_, e) ← liftOut (o.enc zeros16)
+    let (_, d) ← liftOut (o.dec zeros16)
     match o with
     | .wcli c => do
       let (_, (s, op)) ← liftOut (c.decrypt.decryptLarge 0)
@@ -395,23 +270,23 @@ def hdrSteps (exp : String) (K : Bytes) : M String := do
       if pos == 0 && prev != 0 then continue
       let mut e := base
       if pos > 0 then
-        let (e1, _) ← base.enc (List.replicate (pos - 1) 0)
+        let (e1, _) ← liftOut (base.enc ((List.replicate (pos - 1) 0)))
         let mut found := false
         for x in [0:256] do
           if found then break
-          let (c, b) ← e1.enc [UInt8.ofNat x]
+          let (c, b) ← liftOut (e1.enc ([UInt8.ofNat x]))
           if b.headD 0 == UInt8.ofNat prev then
             e := c
             found := true
         if !found then throw "bad-op"
       let mut d := base
       if pos > 0 then
-        let (d1, _) ← base.dec (List.replicate (pos - 1) 0 ++ [UInt8.ofNat prev])
+        let (d1, _) ← liftOut (base.dec ((List.replicate (pos - 1) 0 ++ [UInt8.ofNat prev])))
         d := d1
       for x in [0:256] do
-        let (_, b) ← e.enc [UInt8.ofNat x]
+        let (_, b) ← liftOut (e.enc ([UInt8.ofNat x]))
         h := fnvStep h (b.headD 0)
-        let (_, b2) ← d.dec [UInt8.ofNat x]
+        let (_, b2) ← liftOut (d.dec ([UInt8.ofNat x]))
         h := fnvStep h (b2.headD 0)
         n := n + 1
   pure s!"fnv {hex64 h} n={n}"
@@ -611,13 +486,13 @@ def runOp (be : Backend) (args : List String) : M String := do
     let mut oe := o
     let mut eo : List String := []
     for c in es do
-      let (o', out) ← oe.enc c
+      let (o', out) ← liftOut (oe.enc (c))
       oe := o'
       eo := eo ++ [hex out]
     let mut od := o
     let mut dout : List String := []
     for c in ds do
-      let (o', out) ← od.dec c
+      let (o', out) ← liftOut (od.dec (c))
       od := o'
       dout := dout ++ [hex out]
     let j := fun (l : List String) => if l.isEmpty then "-" else ",".intercalate l
